@@ -607,7 +607,11 @@ def formatter_args_are_numbers(ctx, quals: Iterable[str]):
                 ok = is_int(a0)
                 if not ok and isinstance(a0, ast.Name) and (f"{a0.id} is None", False) in (fl.guards_at(n) or set()):
                     # `x = None` initialisation ruled out by the dominating `x is not None`
-                    ok = a0.id in defs and all(is_int(v) or (isinstance(v, ast.Constant) and v.value is None) for v in defs[a0.id])
+                    def int_or_none(v):
+                        if isinstance(v, ast.IfExp):
+                            return int_or_none(v.body) and int_or_none(v.orelse)
+                        return is_int(v) or (isinstance(v, ast.Constant) and v.value is None)
+                    ok = a0.id in defs and all(int_or_none(v) for v in defs[a0.id])
                 (ctx.ok(construct, f.loc(n), nontrivial=False) if ok else
                  ctx.bad(construct, f"`{ast.unparse(n)}`: the argument is not an integer on every path (it is bound from "
                          f"{[ast.unparse(v)[:30] for v in defs.get(getattr(n.args[0], 'id', ''), [])][:3] or 'a non-local expression'}): hex() of a Symbol or a "
